@@ -30,10 +30,12 @@ def universe():
     S2 = ufl.FunctionSpace(m, E.P("triangle", 2))
     V2 = ufl.FunctionSpace(m, E.P("triangle", 2, (2,)))
     MX = ufl.FunctionSpace(m, E.Mixed([E.P("triangle", 2, (2,)), E.P("triangle", 1)]))
+    T1 = ufl.FunctionSpace(m, E.P("triangle", 1, (2, 2)))
     t = {
         "w": ufl.Coefficient(S2),
         "W": ufl.Coefficient(V2),
         "M": ufl.Coefficient(MX),
+        "T": ufl.Coefficient(T1),
         "f": ufl.Coefficient(S2),
         "g": ufl.Coefficient(S2),
         "c": ufl.Constant(m),
@@ -47,6 +49,7 @@ def universe():
         "dv2": ufl.Argument(S2, 1),
         "dV": ufl.Argument(V2, 0),
         "dM": ufl.Argument(MX, 0),
+        "dT": ufl.Argument(T1, 0),
     }
     return U
 
@@ -73,9 +76,20 @@ def expr_dir(e):
 def configs(U, quick):
     """(name, builder(Fobj) -> derivative object, pert builder -> dict coef -> [dirfn,...], order of tau extraction)."""
     t, a = U.t, U.args
-    w, W, Mx, f, g = t["w"], t["W"], t["M"], t["f"], t["g"]
-    dv, dv2, dV, dM = a["dv"], a["dv2"], a["dV"], a["dM"]
+    w, W, Mx, f, g, T = t["w"], t["W"], t["M"], t["f"], t["g"], t["T"]
+    dv, dv2, dV, dM, dT = a["dv"], a["dv2"], a["dV"], a["dM"], a["dT"]
     cf = []
+    # fixed components of a rank-2 coefficient (the direction is assembled as a nested list of zeros)
+    cf.append(("d/dT[dT]", lambda F: ufl.derivative(F, T, dT), [{T: expr_dir(dT)}]))
+    cf.append(("d/dT[0,1][dv]", lambda F: ufl.derivative(F, T[0, 1], dv), [{T: full_dir(U, T, {(0, 1): dv})}]))
+    cf.append(("d/dT[1,0][g]", lambda F: ufl.derivative(F, T[1, 0], g), [{T: full_dir(U, T, {(1, 0): g})}]))
+    cf.append(
+        (
+            "d/d(T[1,1],T[0,1])[(dv,g)]",
+            lambda F: ufl.derivative(F, (T[1, 1], T[0, 1]), (dv, g)),
+            [{T: full_dir(U, T, {(1, 1): dv, (0, 1): g})}],
+        )
+    )
     cf.append(("d/dw[dv]", lambda F: ufl.derivative(F, w, dv), [{w: expr_dir(dv)}]))
     cf.append(("d/dw[g]", lambda F: ufl.derivative(F, w, g), [{w: expr_dir(g)}]))
     cf.append(("d/dw[2*g*f]", lambda F: ufl.derivative(F, w, 2 * g * f), [{w: expr_dir(2 * g * f)}]))
@@ -307,6 +321,10 @@ def main(argv):
         c += [("getitem", r, 0), ("getitem", r, 1), ("neg", r), ("grad", r), ("divg", r) if nm == "W" else ("getitem", r, 2),
               ("nabla_grad", r), ("curl", r), ("dx", r, 0), ("inner", r, r), ("outer", r, r), ("dot", r, r), ("perp", r) if nm == "W" else ("abs", r),
               ("pow", r, ("num", 2)), ("abs", r), ("getitem", r, "i")]
+    rT = ("t", "T")
+    c += [("getitem", rT, 0, 1), ("getitem", rT, 1, 0), ("getitem", rT, 1, 1), ("getitem", rT, "i", "i"), ("inner", rT, rT), ("det", rT), ("tr", rT),
+          ("inv", rT), ("transpose", rT), ("dot", rT, ("t", "W")), ("dot", ("t", "W"), rT), ("grad", rT), ("divg", rT), ("mul", ("t", "w"), rT),
+          ("mul", ("getitem", rT, 0, 1), ("getitem", rT, 1, 0)), ("mul", ("getitem", rT, 0, 1), ("t", "w"))]
     names = ["w", "W", "M", "f", "g", "c", "x"]
     for a in names:
         for b in names:
